@@ -551,7 +551,19 @@ def impl_op(op, codes):
                 return f'{h} ' + ';'.join(out)
             return guarded(f)
         if k == 'checks':
-            return '111'
+            # the three per-code obligations evaluated on the real objects (no model): every library KL matrix is a scalar,
+            # every listed string fixes every real code word, every stabilizer circuit's unitary is its listed string
+            def f():
+                code = real_codewords(c)
+                M, _ = kl_real(c)
+                ok1 = all(kl_class(m) != 'F' for m in M)
+                listed = c['listed'] or []
+                ok2 = bool(listed) and all(len(s) == n and set(s) <= set('IXYZ') and np.abs(pauli_apply(s, code) - code).max() < 1e-9 for s in listed)
+                circs = c['live']['stabilizer']
+                ok3 = bool(listed) and len(circs) == len(listed) and all(
+                    len(s) == n and set(s) <= set('IXYZ') and np.abs(stab_unitary(c, j) - pauli_matrix(s)).max() < 1e-9 for j, s in enumerate(listed))
+                return ''.join('1' if x else '0' for x in (ok1, ok2, ok3))
+            return guarded(f)
     if k == 'errlist':
         n, d = int(t[2]), int(t[3])
         return guarded(lambda: ';'.join(sparse_to_str(n, e, gate_name) for e in numqi.qec.make_error_list(n, d)))
